@@ -203,3 +203,7 @@ add('B10', x4('SRC/?gstrs.c', "    n = L->nrow;\n    work = ", "    n = L->nrow;
 add('B11', [('SRC/dgssvx.c', "rowequ", "row_scaled", 'all'), ('SRC/dgssvx.c', "colequ", "col_scaled", 'all')], [], ALL, note='rename two locals in dgssvx only')
 add('B12', x4('SRC/?gsrfs.c', "	    if (berr[j] > eps && berr[j] * 2. <= lstres && count < ITMAX) {", "	    if (count < ITMAX && berr[j] > eps && berr[j] * 2. <= lstres) {"), [], ALL,
     note='reorder the conjuncts of the stopping test (all four)')
+add('B13', [('SRC/dgstrs.c', "    Lstore = L->Store;\n    Lval = Lstore->nzval;\n    Ustore = U->Store;\n    Uval = Ustore->nzval;", "    Ustore = U->Store;\n    Lstore = L->Store;\n    Uval = Ustore->nzval;\n    Lval = Lstore->nzval;")], [], ALL,
+    note='reorder independent local assignments in dgstrs only')
+add('B4b', [('SRC/dgsrfs.c', "    notran = (trans == NOTRANS);\n    if ( !notran", "    notran = (trans == NOTRANS);\n    int nrowA = A->nrow;\n    if ( !notran"),
+            ('SRC/dgsrfs.c', "    else if ( A->nrow != A->ncol || A->nrow < 0 ||", "    else if ( nrowA != A->ncol || nrowA < 0 ||")], [], ALL, note='hoist A->nrow into a fresh local in dgsrfs only')
